@@ -388,6 +388,10 @@ def check(ROOT, REPO, LEAN, GOENV, pid, prop, tier, seed):
         "wall_s": round(time.time() - t0, 2),
         "violations": (1 if violation else 0),
     }
+    if discharged == 0:
+        # the theorem module did not build: no proof was checked on this run
+        del ev["coverage"]["discharged"]
+        ev["coverage"]["proof_status"] = "theorem module failed to build; see broken_obligations"
     json.dump(ev, open(ev_path, "w"), indent=1, sort_keys=True)
     print("property=%s tier=%s seed=%d theorems=%d evaluations=%d distinct=%d issues=%d broken=%d wall=%.1fs" % (
         pid, tier, seed, len(thms), stats["evaluations"], len(stats["distinct"]), len(issues), len(broken), time.time() - t0))
